@@ -137,6 +137,14 @@ def sample(rng, n):
         gb, gt = r4(rng, 1.25, 1.7), r4(rng, 1.25, 1.7)
         cases.append({'bottom': [r4(rng, 0.3, 2), r4(rng, 0.3, 2), r4(rng, 1.8, 5), r4(rng, -8, 8), gb],
                       'top': [r4(rng, 0.3, 2), r4(rng, 0.3, 2), r4(rng, 1.8, 5), r4(rng, -8, 8), gt]})
+    # two streams with the SAME Mach number and different gammas, the top stream at the lower pressure (so that its wave is a fan): anything
+    # remembered per Mach number instead of per stream is then shared between the two
+    for _ in range(max(1, n // 2)):
+        M = r4(rng, 2.0, 4.0); gb, gt = r4(rng, 1.25, 1.45), r4(rng, 1.55, 1.7)
+        if rng.random() < 0.5:
+            gb, gt = gt, gb
+        pb = r4(rng, 0.8, 2)
+        cases.append({'bottom': [pb, r4(rng, 0.3, 2), M, 0.0, gb], 'top': [pb * r4(rng, 0.25, 0.7), r4(rng, 0.3, 2), M, 0.0, gt]})
     return cases
 
 
